@@ -865,13 +865,15 @@ func (vfs *MemFS) Rename(oldpath, newpath string) error {
 			return &os.LinkError{Op: op, Old: oldpath, New: newpath, Err: nErr}
 		}
 
-	case *fileNode:
+	case *fileNode, *symlinkNode:
 		if nChild == nil {
 			break
 		}
 
 		switch nc := nChild.(type) {
 		case *fileNode:
+			nc.delete()
+		case *symlinkNode:
 			nc.delete()
 		default:
 			err := error(avfs.ErrFileExists)
